@@ -6,13 +6,14 @@ PROP = dict(
     harnesses={"c03_fd_events": dict(sources=["harness/c03_fd_events.cpp"])},
     legs=[
         # 14 hand-written minimal histories x {epoll, select} + 3 differential close-while-enabled / number re-use histories
-        dict(name="directed", harness="c03_fd_events", flavour="asan", mode="directed", quick=31, thorough=31, scalable=False,
+        # + 2 wait-failure histories (EINTR, EBADF) x {epoll, select}
+        dict(name="directed", harness="c03_fd_events", flavour="asan", mode="directed", quick=35, thorough=35, scalable=False,
              args=_WD, case_timeout=120),
         # case 2k = scenario k on epoll, 2k+1 = the same scenario on select; scenario class k%4 limits the destructive actions
-        dict(name="safety", harness="c03_fd_events", flavour="asan", mode="safety", quick=300000, thorough=9000000,
+        dict(name="safety", harness="c03_fd_events", flavour="asan", mode="safety", quick=270000, thorough=8000000,
              args=_WD, case_timeout=120),
         # one case = one order-independent scenario run on epoll and on select in the same process, callbacks compared per pass
-        dict(name="equiv", harness="c03_fd_events", flavour="asan", mode="equiv", quick=140000, thorough=4400000,
+        dict(name="equiv", harness="c03_fd_events", flavour="asan", mode="equiv", quick=120000, thorough=3800000,
              args=_WD, case_timeout=120),
     ],
     rule=("safety: a seeded scenario of 2-5 pipes / AF_UNIX stream socket pairs (4-10 descriptors), 1-3 FdEvents on ~60% of the "
@@ -38,8 +39,17 @@ PROP = dict(
           "descriptor was enabled when the pass started and the other end is never watched); between passes such a number is re-opened "
           "with probability 2/3 as a new pipe / socket pair end (dup2 onto the number, other end parked at >= 300), the events left on it "
           "are enabled again (3/4 each), a new event is added to the surviving record (1/3) and the end is made ready; otherwise the "
-          "loop's own wake-up descriptor of the next pass may take the number. directed: 14 minimal histories x 2 back-ends, plus 3 "
-          "differential histories (close while enabled, disable, re-open the number, enable the same / a sibling / a new event). "
+          "loop's own wake-up descriptor of the next pass may take the number. Failed waits: one scenario in five of both legs has "
+          "one pass (not the first) before which every descriptor is drained and every still-due event disabled, run WITHOUT the "
+          "zero-timeout trick (5 s guard timer) while a helper thread sends SIGUSR2 (no-op handler, no SA_RESTART) to the loop thread "
+          "every 60 us until the pass returns: the wait fails with EINTR and no callback may happen; one safety scenario in five "
+          "(class 3) leaves events ENABLED on descriptors it closes (inside a callback, 1 callback in 6; between passes, 1 in 4) with a "
+          "lower descriptor number kept free so the loop's wake-up descriptor never lands on such a number: select's wait fails with "
+          "EBADF (the loop disables those events itself), epoll's registration is simply gone; such events must never be called once a "
+          "pass started with their descriptor closed, and isEnabled() of them is not judged. directed: 14 minimal histories x 2 back-ends, plus 3 "
+          "differential histories (close while enabled, disable, re-open the number, enable the same / a sibling / a new event) and 2 "
+          "wait-failure histories (EINTR with four enabled non-ready events; EBADF after a callback closed another event's descriptor) "
+          "x 2 back-ends. "
           "A case is non-trivial when some pass had at least two descriptors with a due enabled event and a callback changed another "
           "event (enable/disable/destroy/create); distinct = distinct hashes of the executed action script (kinds, target classes, "
           "descriptors, masks, readiness shaping) among those"),
@@ -49,6 +59,12 @@ PROP = dict(
         "event is ever left enabled on a closed descriptor when control returns to the loop (the kernel recycles the number: the loop's "
         "own wake-up descriptor would inherit an active record); events left disabled on a closed descriptor are enabled again only "
         "after the harness has re-opened that number",
+        "events left enabled on a closed descriptor (ebadf scenarios only) are API misuse that both back-ends must survive: the harness keeps "
+        "the number from being recycled (a lower number stays free for the loop's wake-up descriptor, the number is never re-opened), does "
+        "not judge isEnabled() of such events (select disables them by itself after EBADF, epoll does not) and does not compare the "
+        "back-ends on these scenarios (select delivers nothing in the pass whose wait failed); they may still be disabled or destroyed",
+        "whether a wait really failed with EINTR is inferred: the pass returned although no enabled event was due, no task was queued, the "
+        "5 s guard timer did not fire and the signal handler ran; the verdict (no callback) does not depend on it",
         "no descriptor is opened while a pass is in progress (numbers are re-opened between passes only), so a descriptor number is never closed and re-opened between the back-end's "
         "wait and the end of the pass (both back-ends identify a descriptor by its number)",
         "an event is never deleted or re-initialised from inside its own callback (the code asserts against the former; the documented "
@@ -99,5 +115,11 @@ PROP = dict(
         "fd_number_reopened_with_surviving_record", "fd_closed_while_enabled_then_number_reused_and_reenabled",
         "new_event_enabled_on_reused_fd_number_with_surviving_record", "event_due_on_reused_fd_number_with_surviving_record",
         "cb_on_reused_fd_number_with_surviving_record", "directed_reuse_number_pairs",
+        # failed waits: EINTR with enabled events that are not ready; EBADF because events were left enabled on a closed descriptor
+        "interrupted_passes", "select_wait_failed_eintr_with_nonready_enabled_events", "epoll_wait_failed_eintr_with_nonready_enabled_events",
+        "act_close_own_fd_leaving_events_enabled", "act_close_own_fd_leaving_two_or_more_events_enabled",
+        "close_between_passes_leaving_events_enabled", "select_pass_with_enabled_event_on_closed_fd",
+        "epoll_pass_with_enabled_event_on_closed_fd", "wait_failed_ebadf_with_nonready_enabled_events",
+        "select_auto_disabled_event_left_enabled_on_closed_fd", "directed_eintr_cases", "directed_ebadf_cases",
     ]},
 )
